@@ -1,8 +1,14 @@
 #!/bin/bash
-# background sweep: triage every profile with many runs and a given seed; prints violation classes
+# background sweep (for `vp run`): builds its own copy of the simulator from the snapshot it runs in,
+# then triages every profile with many runs and a given seed; prints violation classes
 SEED=${1:-1}; RUNS=${2:-200000}
-cd /verif && ./check --build-only || exit 2
+HERE=$(cd "$(dirname "$0")/.." && pwd)
+cd "$HERE/sim" || exit 2
+export CARGO_NET_OFFLINE=true
+CARGO_TARGET_DIR="$HERE/target-sweep" cargo build --release --offline >/dev/null 2>&1 || { echo build failed; exit 2; }
+BIN="$HERE/target-sweep/release/raftsim"
 for p in C01 C02 C04 C08 C09 C10 C11 C13 C14 C15 C16 C17 C20; do
   echo "== $p seed $SEED"
-  /verif/target/release/raftsim triage --profile $p --runs $RUNS --seed $SEED | cut -c1-500
+  "$BIN" triage --profile $p --runs $RUNS --seed $SEED | cut -c1-500
 done
+rm -rf "$HERE/target-sweep"
